@@ -98,9 +98,12 @@ def snap(v):
         return sorted((snap(x) for x in v), key=repr)
     if isinstance(v, dict):
         return {str(k): snap(x) for k, x in v.items()}
-    if hasattr(v, "row_mask") and hasattr(v, "column_mask"):
-        return {"row_mask": snap(v.row_mask), "column_mask": snap(v.column_mask),
-                "table_mask": snap(v.table_mask)}
+    if type(v).__name__ == "MinBaseSizeMask":
+        out = {}
+        for nm in ("row_mask", "column_mask", "table_mask"):
+            g = read(v, nm)  # the masks are lazy: reading one is a boundary read of its own
+            out[nm] = snap(g.value) if g.ok else "raises %s" % g.exc_name
+        return out
     if hasattr(v, "name") and hasattr(v, "value") and not callable(v.value):
         return "%s.%s" % (type(v).__name__, v.name)  # enum member
     if hasattr(v, "name") and type(v).__name__ == "_DimensionType":
